@@ -59,7 +59,8 @@ def run_case(case):
     res = common.CaseResult()
     ks, default, k0 = case["ks"], bytes.fromhex(case["default"]), bytes.fromhex(case["k0"])
     depth = 8 * ks
-    smt = SparseMerkleTree(key_size=ks, default=default)
+    # arguments equal to the constructor's defaults (key_size=32, default=b"") are left out, as callers do
+    smt = SparseMerkleTree(**dict(([("key_size", ks)] if ks != 32 else []) + ([("default", default)] if default != b"" else [])))
     res.emit("smt.reset", "ok")
     res.emit("smt.new %d %s" % (ks, hx(default)), "0")
     for k, v in case["prior"]:
